@@ -255,7 +255,10 @@ def run(ctx):
     # ---- correspondence: the lazy pool with a failing loader under the deterministic scheduler
     from harness.checks import c13
     pargs = [{"T": T, "n": n, "fail": [i], "seed": rng.randrange(1 << 30), "reuse": False} for T in (1, 2, 3) for n in (1, 4, 9) for i in sorted({0, n // 2, n - 1})]
-    pres = child.call("harness.checks.c13", "run_cases", pargs, timeout=600)
+    # many schedules of the smallest configurations (a failing last input with 1-2 workers): the windows between "the consumer gave up
+    # waiting", "the worker reported" and "the worker is gone" are a few steps wide
+    pargs += [{"T": T, "n": n, "fail": [n - 1], "seed": rng.randrange(1 << 30), "reuse": False} for T in (1, 2) for n in (1, 2, 3) for _ in range(ctx.pick(40, 200))]
+    pres = child.call("harness.checks.c13", "run_cases", pargs, timeout=900)
     reqs = [{"m": "pool", "T": r["case"]["T"], "P": r["P"] or 2 * r["case"]["T"] + 2, "n": r["case"]["n"], "fails": r["case"]["fail"], "forward": True,
              "trace": c13.fix_labels(r)} for r in pres]
     reps = lean.driver(reqs)
